@@ -965,3 +965,73 @@ def rule_bsearch_mono(prog):
         # nothing to check today (all searches are linear scans): the rule holds vacuously and says so
         out.add("(whole program)", "no binary search over tokens/nodes", True, "", "0 sites")
     return out
+
+
+# ------------------------------------------------------------------ NOT-A-KIND
+
+def rule_not_a_kind(prog):
+    """A `match` in the table builder / semantic checker whose wildcard arm reports an error (`... is not a type`, `indexing a
+    non-array`, `call of non-procedure`) says: everything that is not the kind named by the arms above is wrong.  So the arms
+    above must take *all* values of their kind: no guard and no refutable sub-pattern - otherwise a value of the right kind
+    (an array whose element type already got its own error) falls through and gets a diagnostic for a rule it does not violate."""
+    out = Out("NOT-A-KIND")
+    c = prog.front
+    n = 0
+
+    def irrefutable(p):
+        p = hir.pat_strip(p)
+        k = p.get("k")
+        if k in ("Wild", "Rest"):
+            return True
+        if k == "Binding":
+            return not p.get("sub") or irrefutable(p["sub"])
+        if k == "Tuple":
+            return all(irrefutable(q) for q in p["pats"])
+        return False
+
+    for b in c.bodies:
+        if not b["p"].startswith("spl_frontend::table::") or "/tests" in c.file_of(b["sp"]):
+            continue
+        for m in hir.nodes(b["body"], "Match"):
+            if m.get("src") != "match" or len(m["arms"]) < 2:
+                continue
+            last_arm = m["arms"][-1]
+            if not hir.is_wild(last_arm["pat"]):
+                continue
+            reports = [x for x in hir.nodes(last_arm["body"], "MethodCall") if x["m"] == "append_error"]
+            if not reports:
+                continue
+            for arm in m["arms"][:-1]:
+                for alt in hir.pat_alternatives(arm["pat"]):
+                    alt_s = hir.pat_strip(alt)
+                    v = hir.pat_variant(alt_s)
+                    if not v:
+                        continue
+                    subs = [f["pat"] for f in alt_s.get("fields", [])] if alt_s.get("k") == "Struct" else alt_s.get("pats", [])
+                    ok = all(irrefutable(q) for q in subs) and arm.get("guard") is None
+                    n += 1
+                    out.add(b["d"], "the arm for %s takes every %s (the wildcard arm below reports an error)" % (last(v), last(v)), ok,
+                            c.loc(arm["sp"]), "the arm for `%s` has a %s: values of that kind which do not match it fall into the wildcard arm and "
+                            "are reported as a violation of the rule that arm stands for, although an earlier error already explained them"
+                            % (last(v), "guard" if arm.get("guard") is not None else "refutable sub-pattern"))
+        # the `if let <Kind>(..) = x { .. } else { report }` form
+        for iff in hir.nodes(b["body"], "If"):
+            cond = hir.strip(iff["cond"])
+            if cond.get("k") != "LetExpr" or not iff.get("else"):
+                continue
+            if not any(x["m"] == "append_error" for x in hir.nodes(iff["else"], "MethodCall")):
+                continue
+            for alt in hir.pat_alternatives(cond["pat"]):
+                alt_s = hir.pat_strip(alt)
+                v = hir.pat_variant(alt_s)
+                if not v or v.startswith("core::option::Option") or v.startswith("core::result::Result"):
+                    continue
+                subs = [f["pat"] for f in alt_s.get("fields", [])] if alt_s.get("k") == "Struct" else alt_s.get("pats", [])
+                n += 1
+                out.add(b["d"], "the `if let` for %s takes every %s (the else branch reports an error)" % (last(v), last(v)),
+                        all(irrefutable(q) for q in subs), c.loc(iff["sp"]),
+                        "the pattern for `%s` has a refutable sub-pattern: values of that kind which do not match it are reported by the else "
+                        "branch as a violation of the rule it stands for" % last(v))
+    if n == 0:
+        out.missing("matches with an error-reporting wildcard arm in spl_frontend::table")
+    return out
